@@ -117,11 +117,17 @@ class Message:
             # the cache remembers searches of the message's own AVP tree only
             return _traverse_avp_tree(alt_list, list(code_and_vendor))
 
+        avp_list = self.avps
+        if avp_list is not self._avps:
+            # the AVPs of a message with attribute definitions are generated
+            # from its attributes, which may have changed since the last search
+            return _traverse_avp_tree(avp_list, list(code_and_vendor))
+
         path = "/".join(f"{c}_{v}" for c, v in code_and_vendor)
         if path in self.__find_cache:
             return self.__find_cache[path]
 
-        result = _traverse_avp_tree(self.avps, list(code_and_vendor))
+        result = _traverse_avp_tree(avp_list, list(code_and_vendor))
         self.__find_cache[path] = result
 
         return result
@@ -259,10 +265,17 @@ class Message:
     @avps.setter
     def avps(self, new_avps: list[Avp]):
         self._avps = new_avps
+        self._forget_searches()
 
     def append_avp(self, avp: Avp):
         """Add an AVP to the internal list of AVPs."""
         self._avps.append(avp)
+        self._forget_searches()
+
+    def _forget_searches(self):
+        # results of `find_avps` are remembered for as long as the list of
+        # AVPs stays as it is
+        self.__find_cache = {}
 
 
 class MessageHeader:
@@ -426,6 +439,7 @@ class DefinedMessage(Message):
             self._avps = new_avps
         else:
             self._additional_avps = new_avps
+        self._forget_searches()
 
     def append_avp(self, avp: Avp):
         """Add an individual custom AVP."""
@@ -433,6 +447,7 @@ class DefinedMessage(Message):
             self._avps.append(avp)
         else:
             self._additional_avps.append(avp)
+        self._forget_searches()
 
 
 class UndefinedGroupedAvp:
